@@ -96,6 +96,19 @@ def impl_parse(s, limit=3.0):
         signal.signal(signal.SIGVTALRM, old)
 
 
+def zero_syms(s):
+    """symbols that the library's parser reads with exponent 0 from the unit string s"""
+    from qexpy.utils import units as U
+    if not s:
+        return []
+    try:
+        with warnings.catch_warnings():
+            warnings.simplefilter("ignore")
+            return [k for k, v in U.parse_unit_string(s).items() if v == 0]
+    except Exception:  # noqa: BLE001
+        return []
+
+
 def impl_unit_of(qobj):
     """the unit of a quantity as the library shows it, read back through the library's parser"""
     s = qobj.unit
@@ -589,6 +602,12 @@ def judge_eval(pid, tree, defs_h, o, m=None):
                                    "library's own parser".format(o["unit"]),
                               impl=o["unit"], expected=str(want), oracle="independent",
                               clause="result unit is a unit"))
+        elif want[0] == "ok" and tree[0] == "node" and zero_syms(o["unit"]):
+            fails.append(dict(base, signature="{}:cancelled-unit-shown:{}".format(p, root),
+                              what="a unit that cancels is still listed in the result's unit "
+                                   "({!r})".format(o["unit"]), impl=o["unit"],
+                              expected=show(sem(want[1])), oracle="independent",
+                              clause="cancelled units disappear"))
         elif want[0] == "ok":
             got = expanded_impl()
             exp = sem(want[1])
